@@ -180,6 +180,80 @@ Proof.
       * now rewrite dir_names_update.
 Qed.
 
+(* link entries the repaired loop skips never address a listed file *)
+Lemma hidden_by_link_prune fx dropped dict ls n :
+  hidden_by_link fx dict (prune fx dropped dict ls) n = hidden_by_link fx dict ls n.
+Proof.
+  unfold prune. destruct (fx_hidden_stays fx); [|reflexivity].
+  unfold hidden_by_link. induction ls as [|le r IH]; [reflexivity|]. cbn [filter existsb].
+  destruct (prune_drops fx dropped dict le) eqn:P; cbn [negb existsb]; [|now rewrite IH].
+  rewrite IH. unfold prune_drops in P. apply andb_true_iff in P as [P _]. apply andb_true_iff in P as [_ P].
+  unfold targets. destruct (dict (e_selector (le_entry le))); [discriminate|].
+  cbn [opt_eqb]. now rewrite andb_false_r.
+Qed.
+
+Lemma prune_subset fx dropped dict ls le : In le (prune fx dropped dict ls) -> In le ls.
+Proof.
+  unfold prune. destruct (fx_hidden_stays fx); [|trivial]. intros H. now apply filter_In in H as [H _].
+Qed.
+
+Lemma prune_not_dropped fx dropped dict ls le :
+  fx_hidden_stays fx = true -> In le (prune fx dropped dict ls) ->
+  le_merge le = true -> dict (e_selector (le_entry le)) = None ->
+  mem_str (e_selector (le_entry le)) dropped = false /\ link_hides fx (e_type (le_entry le)) = false.
+Proof.
+  intros F I M D. unfold prune in I. rewrite F in I. apply filter_In in I as [_ I].
+  unfold prune_drops in I. rewrite M, D in I. cbn [isnone andb] in I.
+  apply negb_true_iff, orb_false_iff in I. exact I.
+Qed.
+
+Lemma update_origin_link_in n f l e : In (None, e) (update_origin n f l) -> In (None, e) l.
+Proof.
+  unfold update_origin. intros H. apply in_map_iff in H as ([o e'] & E & I).
+  destruct (origin_is n (o, e')) eqn:O.
+  - unfold origin_is in O. cbn [fst] in *. destruct o; [inversion E | discriminate].
+  - now rewrite <- E.
+Qed.
+
+Lemma remove_origin_in n l l' x : remove_origin n l = Some l' -> In x l' -> In x l.
+Proof.
+  revert l'. induction l as [|oe r IH]; intros l' H I; [discriminate|]. cbn [remove_origin] in H.
+  destruct (origin_is n oe).
+  - inversion H. subst. now right.
+  - destruct (remove_origin n r) as [r'|]; [|discriminate]. inversion H. subst.
+    destruct I as [I|I]; [now left | right; now apply (IH r')].
+Qed.
+
+(* where the entries that do not stand for a directory entry come from *)
+Lemma merge_loop_link_origin fx dict ls : forall cur out e,
+  merge_loop fx dict ls cur = Ok out -> In (None, e) out ->
+  In (None, e) cur \/
+  exists le, In le ls /\ e = le_entry le /\ (le_merge le = false \/ dict (e_selector (le_entry le)) = None).
+Proof.
+  induction ls as [|le r IH]; intros cur out e H I; cbn [merge_loop] in H.
+  - inversion H. subst. now left.
+  - assert (App : merge_loop fx dict r (cur ++ [(None, le_entry le)]) = Ok out ->
+                  le_merge le = false \/ dict (e_selector (le_entry le)) = None ->
+                  In (None, e) cur \/ exists le0, In le0 (le :: r) /\ e = le_entry le0 /\
+                    (le_merge le0 = false \/ dict (e_selector (le_entry le0)) = None)).
+    { intros H' C. destruct (IH _ _ _ H' I) as [J|(le0 & J & E & C0)].
+      - apply in_app_or in J as [J|[J|[]]]; [now left|]. right. exists le. inversion J. subst.
+        split; [now left | split; [reflexivity | exact C]].
+      - right. exists le0. split; [now right | split; assumption]. }
+    assert (Rec : forall cur', merge_loop fx dict r cur' = Ok out -> (In (None, e) cur' -> In (None, e) cur) ->
+                  In (None, e) cur \/ exists le0, In le0 (le :: r) /\ e = le_entry le0 /\
+                    (le_merge le0 = false \/ dict (e_selector (le_entry le0)) = None)).
+    { intros cur' H' Sub. destruct (IH _ _ _ H' I) as [J|(le0 & J & E & C0)]; [left; now apply Sub|].
+      right. exists le0. split; [now right | split; assumption]. }
+    destruct (le_merge le) eqn:M; cbn [negb] in H; [|apply App; [exact H | now left]].
+    destruct (dict (e_selector (le_entry le))) as [n|] eqn:D; [|apply App; [exact H | now right]].
+    destruct (link_hides fx (e_type (le_entry le))).
+    + destruct (remove_origin n cur) as [cur'|] eqn:R.
+      * apply (Rec cur' H). now apply (remove_origin_in n cur cur').
+      * destruct (fx_remove_safe fx); [|discriminate]. now apply (Rec cur H).
+    + apply (Rec _ H). apply update_origin_link_in.
+Qed.
+
 Section UMNFacts.
   Variable plf : option str -> str -> result (list lentry).
   Variable fx : fixes.
@@ -239,7 +313,7 @@ Section UMNFacts.
     destruct (umn_scan plf fx alts w (enum_order fx enum) [] []) as [[files links]|] eqn:S; simpl in H; [|discriminate].
     pose proof (umn_scan_files _ _ _ _ _ S) as Ef. simpl in Ef. subst files.
     destruct (prep_entries _ _ _) as [fes|] eqn:P; simpl in H; [|discriminate].
-    destruct (merge_link_files fx links (tag_origin fes)) as [merged|] eqn:Mg; simpl in H; [|discriminate].
+    destruct (merge_link_files fx _ (tag_origin fes)) as [merged|] eqn:Mg; simpl in H; [|discriminate].
     inversion H. subst l. clear H.
     exists links, fes. split; [reflexivity|]. split; [reflexivity|].
     pose proof (prep_entries_names _ _ _ _ P) as Nm.
@@ -248,6 +322,10 @@ Section UMNFacts.
       eapply Permutation_NoDup; [apply enum_order_perm | exact ND]. }
     unfold merge_link_files in Mg. apply merge_loop_names in Mg; [|now rewrite dir_names_tag].
     rewrite dir_names_tag in Mg.
+    assert (Mg' : dir_names merged =
+                  filter (fun n => negb (hidden_by_link fx (dict_lookup (tag_origin fes)) links n)) (map fst fes)).
+    { rewrite Mg. apply filter_ext_in'. intros n _. now rewrite hidden_by_link_prune. }
+    clear Mg. rename Mg' into Mg.
     assert (PM : Permutation (dir_names (isort oentry_leb merged)) (dir_names merged)).
     { apply dir_names_perm, Permutation_sym, isort_perm. }
     split.
@@ -271,6 +349,32 @@ Section UMNFacts.
     apply (Permutation_in _ P) in I. apply filter_In in I as [I B].
     apply andb_true_iff in B as [B _]. apply andb_true_iff in B as [B1 B2].
     split; [exact I|]. split; [exact B1 | now apply umn_listed_servable].
+  Qed.
+
+  (* D25 repaired: an entry of the listing that does not stand for a directory
+     entry is the entry of a link block, and a block for ./name only gets there
+     when the file was not hidden by its .cap file and the block is not a hide block *)
+  Lemma umn_link_entries enum l e :
+    fx_hidden_stays fx = true -> umn_listing_gen plf fx alts mode w enum = Ok l -> In (None, e) l ->
+    exists files links le,
+      umn_scan plf fx alts w (enum_order fx enum) [] [] = Ok (files, links) /\
+      In le links /\ e = le_entry le /\
+      (le_merge le = false \/
+       (mem_str (e_selector e) (cap_dropped plf mode w (sort_names files)) = false /\
+        link_hides fx (e_type e) = false)).
+  Proof.
+    intros F H I. unfold umn_listing_gen in H.
+    destruct (umn_scan plf fx alts w (enum_order fx enum) [] []) as [[files links]|] eqn:S; simpl in H; [|discriminate].
+    destruct (prep_entries _ _ _) as [fes|] eqn:P; simpl in H; [|discriminate].
+    destruct (merge_link_files fx _ (tag_origin fes)) as [merged|] eqn:Mg; simpl in H; [|discriminate].
+    inversion H. subst l. clear H.
+    apply (Permutation_in _ (Permutation_sym (isort_perm oentry_leb merged))) in I.
+    unfold merge_link_files in Mg.
+    destruct (merge_loop_link_origin _ _ _ _ _ _ Mg I) as [J|(le & J & E & C)].
+    - exfalso. unfold tag_origin in J. apply in_map_iff in J as (x & Ex & _). discriminate.
+    - exists files, links, le. split; [reflexivity|]. split; [eapply prune_subset; exact J|]. split; [exact E|].
+      destruct (le_merge le) eqn:M; [right | now left]. destruct C as [C|C]; [discriminate|].
+      subst e. exact (prune_not_dropped _ _ _ _ _ F J M C).
   Qed.
 
   (* with names iterated in sorted order, the result does not depend on the
@@ -348,4 +452,71 @@ Proof. eexists. split; vm_compute; reflexivity. Qed.
 Lemma ex_dir_listing :
   exists l, dir_listing repaired shipped_ignore ex_world ex_enum = Ok l /\
             map fst l = [lit ".names"%string; lit "a.txt"%string; lit "b.txt"%string].
+Proof. eexists. split; vm_compute; reflexivity. Qed.
+
+(* ================= end to end: the repaired UMN listing, link files and .cap files included ================= *)
+Lemma umn_full_order_independent fx alts mode w e1 e2 :
+  fx_sorted_enum fx = true -> Permutation e1 e2 ->
+  umn_listing fx alts mode w e1 = umn_listing fx alts mode w e2.
+Proof. intros F P. unfold umn_listing. now apply umn_order_independent. Qed.
+
+Lemma umn_repaired_order_independent alts mode w e1 e2 :
+  Permutation e1 e2 -> umn_listing repaired alts mode w e1 = umn_listing repaired alts mode w e2.
+Proof. apply umn_full_order_independent. reflexivity. Qed.
+
+(* two link files touching one entry, plus a .cap file on another: every enumeration
+   order gives this one listing (the block of the later file name wins) *)
+Definition two_links_world : world :=
+  mkWorld (lit "/d"%string)
+    (fun n => Some KFile)
+    (fun n => mkChild (mkEntry (lit "/d/"%string ++ n) (Some 48) (Some n) None None (Some 0%Z) [] true) true false [])
+    (fun n => if str_eqb n (lit ".one"%string) then Some (lit "Path=./a.txt
+Name=First
+Numb=2
+"%string)
+              else if str_eqb n (lit ".two"%string) then Some (lit "Path=./a.txt
+Name=Second
+"%string) else None)
+    (fun n => if str_eqb n (lit "b.txt"%string) then Some (lit "Name=Bee
+Numb=1
+"%string) else None).
+Definition two_links_enum : list str :=
+  [lit "b.txt"%string; lit ".two"%string; lit "a.txt"%string; lit ".one"%string].
+
+Lemma two_links_example :
+  (forall e, Permutation two_links_enum e ->
+     umn_listing repaired shipped_ignore StripNone two_links_world e =
+     umn_listing repaired shipped_ignore StripNone two_links_world two_links_enum) /\
+  exists l, umn_listing repaired shipped_ignore StripNone two_links_world two_links_enum = Ok l /\
+            map (fun oe => (fst oe, e_name (snd oe), e_num (snd oe))) l =
+            [(Some (lit "b.txt"%string), Some (lit "Bee"%string), Some 1%Z);
+             (Some (lit "a.txt"%string), Some (lit "Second"%string), Some 2%Z)].
+Proof.
+  split.
+  - intros e P. symmetry. now apply umn_repaired_order_independent.
+  - eexists. split; vm_compute; reflexivity.
+Qed.
+
+(* ================= D25: hidden by its .cap file, yet listed through a ./ block ================= *)
+Definition head_before_d25 : fixes := mkFixes true true true true true true false.
+Definition d25_world : world :=
+  mkWorld (lit "/d"%string)
+    (fun n => Some KFile)
+    (fun n => mkChild (mkEntry (lit "/d/"%string ++ n) (Some 48) (Some n) None None (Some 0%Z) [] true) true false [])
+    (fun n => if str_eqb n (lit ".names"%string) then Some (lit "Path=./fred
+Name=Fred is back
+"%string) else None)
+    (fun n => if str_eqb n (lit "fred"%string) then Some (lit "Type=X
+"%string) else None).
+Definition d25_enum : list str := [lit ".names"%string; lit "a.txt"%string; lit "fred"%string].
+
+Lemma cap_hidden_relisted_refuted :
+  exists l, umn_listing head_before_d25 shipped_ignore StripNone d25_world d25_enum = Ok l /\
+            map (fun oe => (fst oe, e_selector (snd oe))) l =
+            [(None, lit "/d/fred"%string); (Some (lit "a.txt"%string), lit "/d/a.txt"%string)].
+Proof. eexists. split; vm_compute; reflexivity. Qed.
+
+Lemma cap_hidden_repaired :
+  exists l, umn_listing repaired shipped_ignore StripNone d25_world d25_enum = Ok l /\
+            map (fun oe => (fst oe, e_selector (snd oe))) l = [(Some (lit "a.txt"%string), lit "/d/a.txt"%string)].
 Proof. eexists. split; vm_compute; reflexivity. Qed.
